@@ -218,6 +218,14 @@ test(%s)
 .. | %s
 (%s) as $y | $y
 select(%s | not)
+(%s)["zz"]
+(%s)[5]
+({"k": 1}, %s)["zz"]
+({"k": 1}, %s)[5]
+(%s, {"k": 1})["zz"]
+[{"k": 1}, %s] | .[1]["zz"]
+.[] as $i ireduce ({}; . * {"v": ($i | %s)})
+. as $i ireduce ({}; . * {"v": ($i | %s)})
 `), "\n")
 
 var c08Binary = []string{"|", ",", "+", "-", "*", "/", "%", "==", "!=", "<", "<=", ">", ">=", "and", "or", "//", "*+", "*d", "*?", "*n"}
@@ -232,6 +240,8 @@ var c08HandDocs = []string{
 	"[{key: a, value: 1}, {key: b, value: [1, 0]}] # entries\n",
 	"- [a, 1]\n- [b, 2] # rows\n",
 	"a: 2021-01-01T00:00:00Z\nb: 1.5\nc: 0x10\nd: -1\ne: ''\n",
+	// an anchored value that itself holds an alias and a further anchor, aliased twice
+	"y: &y 1\na: &x {p: *y, q: &in 5} # la\nb: *x\nc: [*x, *in]\n",
 }
 
 type c08Case struct {
